@@ -260,7 +260,7 @@ def judge(D, T):
             direct.append(("script-size", "script_size() = %d but encode().len() = %d for %s [%s]" % (t["ss"], t["enc"], t["dump"], t["ctx"]),
                            {"ctx": t["ctx"], "ms": t["dump"], "script_size": t["ss"], "encoded_len": t["enc"],
                             "failed_clause": "script_size == encode().len()"}))
-        if int(t["ext"][0]) != t["enc"]:
+        if int(t["ext"][0]) < t["enc"]:
             need_attr.append({"what": "pk_cost", "field": 3, "ctx": t["ctx"], "ms": t["dump"], "figure": int(t["ext"][0]), "measured": t["enc"],
                               "shape": None, "input": {"ctx": t["ctx"], "ms": t["dump"]}})
         # limits the library declared respected (from_ast succeeded => global consensus+policy checks passed)
@@ -401,6 +401,35 @@ def attribute(need_attr):
     return res
 
 
+DRIVER_EXT = os.path.join(vlib.VERIF, "ocaml", "driver_ext")
+
+
+def run_traces(hbin, seed, n):
+    """sat engine | extracted instrumented Script semantics: executed opcode count and stack depth
+    of every satisfaction the implementation returns, compared with the library's figures"""
+    with vlib.Lock("ocaml"):
+        p = vlib.sh(["./build_ext.sh"], cwd=os.path.join(vlib.VERIF, "ocaml"), timeout=1200, stack_unlimited=True)
+        if p.returncode != 0 or not os.path.exists(DRIVER_EXT):
+            raise RuntimeError("extraction / driver_ext build failed: " + (p.stderr or p.stdout)[-3000:])
+    p = vlib.sh("%s sat %d %d 2>/dev/null | %s" % (hbin, seed, n, DRIVER_EXT), timeout=3000)
+    if p.returncode != 0:
+        raise RuntimeError("trace run failed: " + p.stderr[-2000:])
+    bad, summary, hist = [], {}, {}
+    for line in p.stdout.splitlines():
+        if line.startswith("BAD C09"):
+            d = {k: v for k, v in re.findall(r"(\w+)=(\S+)", line.split(" desc=")[0])}
+            d["desc"] = line.split(" desc=", 1)[1] if " desc=" in line else ""
+            bad.append(d)
+        elif line.startswith("SUMMARY"):
+            summary = {k: int(v) for k, v in re.findall(r"(\w+)=(\d+)", line)}
+        elif line.startswith("HIST "):
+            _, k, v = line.split()
+            hist[k] = int(v)
+    if not summary:
+        raise RuntimeError("driver_ext produced no summary: " + p.stdout[-1000:] + p.stderr[-1000:])
+    return bad, summary, hist
+
+
 def run(rep, tier, seed, replay):
     hbin = vlib.build_harness()
     ok, thms = vlib.proof_gates(rep, "C09")
@@ -476,6 +505,30 @@ def run(rep, tier, seed, replay):
         before = len(rep.violations)
         rep.violation(key, what, dict(inp, property="C09", engine="ext", engine_args=args), True)
         found_real = found_real or len(rep.violations) > before
+    # ---- execution figures: opcode count and stack depth on the extracted instrumented semantics
+    n_tr = 6000 if tier == "thorough" else 500
+    tbad, tsum, thist = run_traces(hbin, seed, n_tr)
+    for b in tbad:
+        what = b.get("what")
+        if what == "stackdepth":
+            over = int(b["measured"]) - int(b["max_witness_stack_count"]) - int(b["max_exec_stack_count"])
+            key = "exec-stack:multi-num-pushes" if ("multi(" in b["desc"] and over <= 2) else "exec:stackdepth"
+            msg = "stack+altstack depth %s > max_witness_stack_count %s + max_exec_stack_count %s" % (
+                b["measured"], b["max_witness_stack_count"], b["max_exec_stack_count"])
+        elif what == "opcount":
+            key = "exec:opcount"
+            msg = "executed-opcode count %s > static_ops %s + max_exec_op_count %s" % (b["measured"], b["static_ops"], b["max_exec_op_count"])
+        else:
+            key = "exec:no-figure"
+            msg = "a satisfaction executes although the leaf has no satisfaction figure"
+        before = len(rep.violations)
+        rep.violation(key, "%s on %s [%s, keymask %s, premask %s]" % (msg, b["desc"], b.get("mode"), b.get("keymask"), b.get("premask")),
+                      dict(b, property="C09", engine="sat | driver_ext", engine_args=[seed, n_tr],
+                           failed_clause="measured on the execution trace <= the library's figure"), True)
+        found_real = found_real or len(rep.violations) > before
+    st["traces/executed"] = tsum.get("traced", 0)
+    st["compared"] += 2 * tsum.get("traced", 0)
+
     # on-break protocol: a broken tie with no failing input found by this run's oracle => widen the search once
     if tie_breaks and not found_real:
         p2 = vlib.sh([hbin, "ext", str(seed + 1000003), "0", str(nt * 2), str(nd * 3)], timeout=3000)
@@ -514,7 +567,7 @@ def run(rep, tier, seed, replay):
     obligations = len(thms) + 4
     rep.coverage.update({
         "obligations": obligations, "discharged": (len(thms) if ok else 0) + (4 if tie_ok else 0),
-        "checker_cmd": "make -C coq; coqc Properties/C09.v; verif-harness ext %d %d %d %d -> Tables/ExtCasesGen.v; coqc Tables/ExtCasesCheck.v" % tuple(args),
+        "checker_cmd": "make -C coq; coqc Properties/C09.v; verif-harness ext %d %d %d %d -> Tables/ExtCasesGen.v; coqc Tables/ExtCasesCheck.v; verif-harness sat %d %d | ocaml/driver_ext" % (tuple(args) + (seed, n_tr)),
         "trusted_base": vlib.TRUSTED_BASE_COMMON + [
             "Ms/Sat.v is the model of the satisfier the bounds are proved against (tied to the implementation by the C01 run)",
             "size measurements in harness/src/ext.rs (varint, witness serialisation, scriptSig parsing with rust-bitcoin)"],
@@ -526,6 +579,7 @@ def run(rep, tier, seed, replay):
         "rule_cases": len(rules), "rule_cases_panicking": panics, "tree_cases": n_tree, "descriptor_weight_cases": n_desc, "plan_cases": n_plan,
         "theorem_class_coverage": {"scripts": int(cov.group(1)), "ext_safe_as_written": int(cov.group(2)), "ext_safe_all_repairs": int(cov.group(3))} if cov else None,
         "comparisons": dict(st), "histogram": dict(hist), "samples": samples,
+        "execution_traces": {"summary": tsum, "histogram": thist},
         "tie_checked_in_coq": tie_ok,
     })
     rep.assumptions = ["signatures are real and ground to the longest low-S encoding; sizes are measured on raw bytes",
